@@ -7,6 +7,8 @@
 #include <tbox/log/async_sink.h>
 #include <tbox/log/async_file_sink.h>
 #include <dirent.h>
+#include <fcntl.h>
+#include <unistd.h>
 #include <sys/stat.h>
 #include <sys/time.h>
 #include <algorithm>
@@ -110,8 +112,35 @@ static int sweep_file(const std::string &work) {
   D = N; return 0;
 }
 
+// stdout sinks (sync: printf, async: write(1)): fd 1 is redirected into a file for the duration of one record; the line must
+// carry every field intact: level code [+colour], time, thread id, module, function, text (+ truncation mark), file:line
+#include <tbox/log/sync_stdout_sink.h>
+#include <tbox/log/async_stdout_sink.h>
+#include <sys/syscall.h>
+static int sweep_stdout(const std::string &work) {
+  std::string cap = work + "/stdout_capture.txt"; long tid = syscall(SYS_gettid);
+  char ts[32]; { time_t t = vsec; struct tm tm; localtime_r(&t, &tm); strftime(ts, sizeof ts, "%F %H:%M:%S", &tm); }
+  for (int kind = 0; kind < 2; kind++) for (int color = 0; color < 2; color++) for (int lv = 0; lv < LOG_LEVEL_MAX; lv++) for (size_t max : {4ul, 100ul}) for (size_t L : {0ul, 1ul, 4ul, 5ul, 9ul}) for (int with_func = 0; with_func < 2; with_func++) {
+    LogSetMaxLength(max); std::string text(L, 'x'); for (size_t i = 0; i < L; i++) text[i] = (char)('a' + i);
+    char desc[128]; snprintf(desc, sizeof desc, "%s-stdout-sink color=%d level=%d max=%zu len=%zu func=%d", kind ? "async" : "sync", color, lv, max, L, with_func); hx::set_current(desc);
+    fflush(stdout); int saved = dup(1); int fd = open(cap.c_str(), O_CREAT | O_TRUNC | O_WRONLY, 0600); dup2(fd, 1); close(fd);
+    { SyncStdoutSink ss; AsyncStdoutSink as; Sink *k = kind ? (Sink *)&as : (Sink *)&ss; k->setLevel(LOG_LEVEL_TRACE); k->enableColor(color); k->enable();
+      LogPrintfFunc("modQ", with_func ? "fnQ" : nullptr, "dir/fileQ.cpp", 77, lv, 0, text.c_str());
+      k->disable(); fflush(stdout); }
+    dup2(saved, 1); close(saved);
+    std::ifstream in(cap); std::stringstream buf; buf << in.rdbuf(); std::string got = buf.str(); N++;
+    size_t el = std::min(L, max); bool tr = L > max;
+    char head[160]; snprintf(head, sizeof head, "%c %s.%06u %ld modQ ", LOG_LEVEL_LEVEL_CODE[lv], ts, 42u, tid);
+    std::string want = (color ? std::string("\033[") + LOG_LEVEL_COLOR_CODE[lv] + "m" : std::string()) + head + (with_func ? "fnQ() " : "") + (el ? text.substr(0, el) + " " : std::string()) + (tr && (el || !kind) ? "(TRUNCATED) " : "") + "-- fileQ.cpp:77" + (color ? "\033[0m\n" : "\n");
+    if (got != want) printf("@VIOL sig=%s-stdout-sink-line-differs-from-the-documented-record-format :: %s got=[%s] want=[%s]\n", kind ? "async" : "sync", desc, got.substr(0, 120).c_str(), want.substr(0, 120).c_str());
+    if (N % 150 == 1) printf("@SAMPLE %s => %zu bytes on stdout\n", desc, got.size());
+  }
+  LogSetMaxLength(100 << 10); unlink(cap.c_str()); D = N; return 0;
+}
+
 int main(int argc, char **argv) {
   std::string what = argc > 1 ? argv[1] : "len"; hx::install_crash_reporter("C09-crash");
+  if (what == "stdout") { int rc = sweep_stdout(argc > 2 ? argv[2] : "/tmp"); printf("@STAT states=%zu transitions=%zu executions=%zu\n", D, N, N); return rc; }
   int rc = what == "len" ? sweep_len() : what == "filter" ? sweep_filter() : sweep_file(argc > 2 ? argv[2] : "/tmp");
   printf("@STAT states=%zu transitions=%zu executions=%zu\n", D, N, N); return rc;
 }
